@@ -14,6 +14,7 @@ a non-positive repetition count gives the empty tuple (Z.to_nat).
 `len(bin(v)) - 2` is read as the bit length `Z.log2 v + 1` for v > 0 (the only recognised use of bin).
 Anything else - in particular true division `/` and math.ceil - is rejected.
 """
+OUTPUTS = ['ExpandGen.v', 'GosperGen.v']      # generated files (the driver uses this to decide which properties depend on this translator)
 import ast, os
 from trlib import *
 
